@@ -787,20 +787,20 @@ def mapPruneH (f : Val → Res Val) (x : Val) : Res (List Val) := do
   let p ← f x
   pure (if p.isNull then [] else [p])
 
-theorem mapPrune_eq (f : Val → Res Val) : ∀ xs, mapPrune f xs = collect (mapPruneH f) xs
+theorem mapPrune_eq_collect (f : Val → Res Val) : ∀ xs, mapPrune f xs = collect (mapPruneH f) xs
   | [] => rfl
   | x :: xs => by
-    simp only [mapPrune, collect, mapPruneH, mapPrune_eq f xs]
+    simp only [mapPrune, collect, mapPruneH, mapPrune_eq_collect f xs]
     cases f x <;> simp only [Res.ok_bind, Res.err_bind, Res.panic_bind, Res.nondet_bind, Res.unmodelled_bind]
     rename_i p
     cases collect (mapPruneH f) xs <;>
       simp only [Res.ok_bind, Res.err_bind, Res.panic_bind, Res.nondet_bind, Res.unmodelled_bind, Res.pure_eq]
     cases p.isNull <;> simp
 
-theorem mapPruneO_eq (g : Nat → Val → Res Val) : ∀ i xs, mapPruneO g i xs = collectO (fun i => mapPruneH (g i)) i xs
+theorem mapPruneO_eq_collect (g : Nat → Val → Res Val) : ∀ i xs, mapPruneO g i xs = collectO (fun i => mapPruneH (g i)) i xs
   | _, [] => rfl
   | i, x :: xs => by
-    simp only [mapPruneO, collectO, mapPruneH, mapPruneO_eq g (i + 1) xs]
+    simp only [mapPruneO, collectO, mapPruneH, mapPruneO_eq_collect g (i + 1) xs]
     cases g i x <;> simp only [Res.ok_bind, Res.err_bind, Res.panic_bind, Res.nondet_bind, Res.unmodelled_bind]
     rename_i p
     cases collectO (fun i => mapPruneH (g i)) (i + 1) xs <;>
@@ -820,19 +820,19 @@ def mapAllH (f : Val → Res Val) (x : Val) : Res (List Val) := do
   let p ← f x
   pure [p]
 
-theorem mapAll_eq (f : Val → Res Val) : ∀ xs, mapAll f xs = collect (mapAllH f) xs
+theorem mapAll_eq_collect (f : Val → Res Val) : ∀ xs, mapAll f xs = collect (mapAllH f) xs
   | [] => rfl
   | x :: xs => by
-    simp only [mapAll, collect, mapAllH, mapAll_eq f xs]
+    simp only [mapAll, collect, mapAllH, mapAll_eq_collect f xs]
     cases f x <;> simp only [Res.ok_bind, Res.err_bind, Res.panic_bind, Res.nondet_bind, Res.unmodelled_bind]
     cases collect (mapAllH f) xs <;>
       simp only [Res.ok_bind, Res.err_bind, Res.panic_bind, Res.nondet_bind, Res.unmodelled_bind, Res.pure_eq]
     simp
 
-theorem mapAllO_eq (g : Nat → Val → Res Val) : ∀ i xs, mapAllO g i xs = collectO (fun i => mapAllH (g i)) i xs
+theorem mapAllO_eq_collect (g : Nat → Val → Res Val) : ∀ i xs, mapAllO g i xs = collectO (fun i => mapAllH (g i)) i xs
   | _, [] => rfl
   | i, x :: xs => by
-    simp only [mapAllO, collectO, mapAllH, mapAllO_eq g (i + 1) xs]
+    simp only [mapAllO, collectO, mapAllH, mapAllO_eq_collect g (i + 1) xs]
     cases g i x <;> simp only [Res.ok_bind, Res.err_bind, Res.panic_bind, Res.nondet_bind, Res.unmodelled_bind]
     cases collectO (fun i => mapAllH (g i)) (i + 1) xs <;>
       simp only [Res.ok_bind, Res.err_bind, Res.panic_bind, Res.nondet_bind, Res.unmodelled_bind, Res.pure_eq]
@@ -847,20 +847,20 @@ def filterH (c : Val → Res Val) (x : Val) : Res (List Val) := do
   let b ← c x
   pure (if isTrue b && !x.isNull then [x] else [])
 
-theorem filterLoop_eq (c : Val → Res Val) : ∀ xs, filterLoop c xs = collect (filterH c) xs
+theorem filterLoop_eq_collect (c : Val → Res Val) : ∀ xs, filterLoop c xs = collect (filterH c) xs
   | [] => rfl
   | x :: xs => by
-    simp only [filterLoop, collect, filterH, filterLoop_eq c xs]
+    simp only [filterLoop, collect, filterH, filterLoop_eq_collect c xs]
     cases c x <;> simp only [Res.ok_bind, Res.err_bind, Res.panic_bind, Res.nondet_bind, Res.unmodelled_bind]
     rename_i b
     cases collect (filterH c) xs <;>
       simp only [Res.ok_bind, Res.err_bind, Res.panic_bind, Res.nondet_bind, Res.unmodelled_bind, Res.pure_eq]
     cases (isTrue b && !x.isNull) <;> simp
 
-theorem filterLoopO_eq (g : Nat → Val → Res Val) : ∀ i xs, filterLoopO g i xs = collectO (fun i => filterH (g i)) i xs
+theorem filterLoopO_eq_collect (g : Nat → Val → Res Val) : ∀ i xs, filterLoopO g i xs = collectO (fun i => filterH (g i)) i xs
   | _, [] => rfl
   | i, x :: xs => by
-    simp only [filterLoopO, collectO, filterH, filterLoopO_eq g (i + 1) xs]
+    simp only [filterLoopO, collectO, filterH, filterLoopO_eq_collect g (i + 1) xs]
     cases g i x <;> simp only [Res.ok_bind, Res.err_bind, Res.panic_bind, Res.nondet_bind, Res.unmodelled_bind]
     rename_i b
     cases collectO (fun i => filterH (g i)) (i + 1) xs <;>
@@ -880,10 +880,10 @@ def filterMapH (c f : Val → Res Val) (x : Val) : Res (List Val) := do
   let b ← c x
   if isTrue b then mapPruneH f x else pure []
 
-theorem filterMapPrune_eq (c f : Val → Res Val) : ∀ xs, filterMapPrune c f xs = collect (filterMapH c f) xs
+theorem filterMapPrune_eq_collect (c f : Val → Res Val) : ∀ xs, filterMapPrune c f xs = collect (filterMapH c f) xs
   | [] => rfl
   | x :: xs => by
-    simp only [filterMapPrune, collect, filterMapH, mapPruneH, filterMapPrune_eq c f xs]
+    simp only [filterMapPrune, collect, filterMapH, mapPruneH, filterMapPrune_eq_collect c f xs]
     cases c x <;> simp only [Res.ok_bind, Res.err_bind, Res.panic_bind, Res.nondet_bind, Res.unmodelled_bind]
     rename_i b
     cases isTrue b <;> simp only [if_true, Bool.false_eq_true, if_false]
@@ -894,11 +894,11 @@ theorem filterMapPrune_eq (c f : Val → Res Val) : ∀ xs, filterMapPrune c f x
         simp only [Res.ok_bind, Res.err_bind, Res.panic_bind, Res.nondet_bind, Res.unmodelled_bind, Res.pure_eq]
       cases p.isNull <;> simp
 
-theorem filterMapPruneO_eq (gc gf : Nat → Val → Res Val) : ∀ i xs,
+theorem filterMapPruneO_eq_collect (gc gf : Nat → Val → Res Val) : ∀ i xs,
     filterMapPruneO gc gf i xs = collectO (fun i => filterMapH (gc i) (gf i)) i xs
   | _, [] => rfl
   | i, x :: xs => by
-    simp only [filterMapPruneO, collectO, filterMapH, mapPruneH, filterMapPruneO_eq gc gf (i + 1) xs]
+    simp only [filterMapPruneO, collectO, filterMapH, mapPruneH, filterMapPruneO_eq_collect gc gf (i + 1) xs]
     cases gc i x <;> simp only [Res.ok_bind, Res.err_bind, Res.panic_bind, Res.nondet_bind, Res.unmodelled_bind]
     rename_i b
     cases isTrue b <;> simp only [if_true, Bool.false_eq_true, if_false]
@@ -932,7 +932,8 @@ theorem loop_result_sim {t t' : ATag} {xs xs' : List Val} {h : Val → Res (List
     refine SimG.bind (collect_simP hh 0 hp) fun rs rs' hr => SimG.pure ?_
     obtain ⟨qs, hq, hd⟩ := hr
     exact conc_enumArr (concP_iff.mpr ⟨qs, hq, concL_iff.mpr hd⟩)
-  · obtain ⟨rfl, hl⟩ := h1 ht
+  · have hl := (h1 ht).2
+    rw [(h1 ht).1]
     refine SimG.bind (collect_simL hh 0 hl) fun rs rs' hr => SimG.pure ?_
     have : t.derived ≠ .enum := by cases t <;> simp_all [ATag.derived]
     exact conc_arr_of_ne this (concL_iff.mpr hr)
@@ -942,7 +943,7 @@ theorem projectArray_simE {f : Val → Res Val} {g : Nat → Val → Res Val} (h
   cases v with
   | arr t xs =>
     obtain ⟨t', xs', rfl, _⟩ := conc_arr h
-    simp only [projectArray, projectArrayO, mapPrune_eq, mapPruneO_eq]
+    simp only [projectArray, projectArrayO, mapPrune_eq_collect, mapPruneO_eq_collect]
     exact SimG.widen (loop_result_sim h (mapPruneH_sim hf))
   | obj kvs => obtain ⟨kvs', rfl, _⟩ := conc_obj h; exact SimG.ok conc_null
   | _ => simp only [Conc] at h; subst h; exact SimG.ok conc_null
@@ -952,7 +953,7 @@ theorem filterArray_simE {c : Val → Res Val} {g : Nat → Val → Res Val} (hc
   cases v with
   | arr t xs =>
     obtain ⟨t', xs', rfl, _⟩ := conc_arr h
-    simp only [filterArray, filterArrayO, filterLoop_eq, filterLoopO_eq]
+    simp only [filterArray, filterArrayO, filterLoop_eq_collect, filterLoopO_eq_collect]
     exact SimG.widen (loop_result_sim h (filterH_sim hc))
   | obj kvs => obtain ⟨kvs', rfl, _⟩ := conc_obj h; exact SimG.ok conc_null
   | _ => simp only [Conc] at h; subst h; exact SimG.ok conc_null
@@ -963,7 +964,7 @@ theorem filterAndProjectArray_simE {c f : Val → Res Val} {gc gf : Nat → Val 
   cases v with
   | arr t xs =>
     obtain ⟨t', xs', rfl, _⟩ := conc_arr h
-    simp only [filterAndProjectArray, filterAndProjectArrayO, filterMapPrune_eq, filterMapPruneO_eq]
+    simp only [filterAndProjectArray, filterAndProjectArrayO, filterMapPrune_eq_collect, filterMapPruneO_eq_collect]
     exact SimG.widen (loop_result_sim h (filterMapH_sim hc hf))
   | obj kvs => obtain ⟨kvs', rfl, _⟩ := conc_obj h; exact SimG.ok conc_null
   | _ => simp only [Conc] at h; subst h; exact SimG.ok conc_null
@@ -973,8 +974,436 @@ theorem mapArray_simE {f : Val → Res Val} {g : Nat → Val → Res Val} (hf : 
   cases v with
   | arr t xs =>
     obtain ⟨t', xs', rfl, _⟩ := conc_arr h
-    simp only [mapArray, mapArrayO, mapAll_eq, mapAllO_eq]
+    simp only [mapArray, mapArrayO, mapAll_eq_collect, mapAllO_eq_collect]
     exact SimG.widen (loop_result_sim h (mapAllH_sim hf))
   | _ => exact SimG.of_not_ok (by intro a e; cases e)
+
+/-! ### `flattenAndProjectArray` -/
+
+def flatP1 : Val → List Val
+  | .arr _ ys => ys
+  | x => [x]
+
+theorem flattenForProject_eq : ∀ xs : List Val, flattenForProject xs = xs.flatMap flatP1
+  | [] => rfl
+  | x :: rest => by
+    cases x <;> simp [flattenForProject, flatP1, flattenForProject_eq rest]
+
+theorem flatP1_concP {x x' : Val} (h : Conc x x') : ConcP (flatP1 x) (flatP1 x') := by
+  cases x with
+  | arr t ys =>
+    obtain ⟨t', ys', rfl, _, hp, _⟩ := conc_arr h
+    exact hp
+  | obj kvs => obtain ⟨kvs', rfl, _⟩ := conc_obj h; exact ConcP.cons h ConcP.nil
+  | _ => simp only [Conc] at h; subst h; exact ConcP.cons (by simp [Conc]) ConcP.nil
+
+theorem flatP1_concL {x x' : Val} (h : Conc x x') (hx : ∀ t ys, x = .arr t ys → enum2 t ys = false) :
+    ConcL (flatP1 x) (flatP1 x') := by
+  cases x with
+  | arr t ys =>
+    obtain ⟨t', ys', rfl, _, hl, _⟩ := conc_arr_pos h (hx t ys rfl)
+    exact hl
+  | obj kvs => obtain ⟨kvs', rfl, _⟩ := conc_obj h; exact concL_cons h concL_nil
+  | _ => simp only [Conc] at h; subst h; exact concL_cons (by simp [Conc]) concL_nil
+
+theorem flatMap_flatP1_concL : ∀ {xs xs' : List Val}, ConcL xs xs' →
+    (∀ x ∈ xs, ∀ t ys, x = .arr t ys → enum2 t ys = false) → ConcL (xs.flatMap flatP1) (xs'.flatMap flatP1)
+  | [], xs', h, _ => by simp only [ConcL] at h; subst h; exact concL_nil
+  | x :: xs, xs', h, hx => by
+    simp only [ConcL] at h
+    obtain ⟨x', t', h1, ht, rfl⟩ := h
+    simp only [List.flatMap_cons]
+    exact concL_append (flatP1_concL h1 (hx x (by simp)))
+      (flatMap_flatP1_concL ht fun y hy => hx y (List.mem_cons_of_mem _ hy))
+
+theorem flatMap_flatP1_concP_of_concL : ∀ {xs xs' : List Val}, ConcL xs xs' →
+    ConcP (xs.flatMap flatP1) (xs'.flatMap flatP1)
+  | [], xs', h => by simp only [ConcL] at h; subst h; exact ConcP.nil
+  | x :: xs, xs', h => by
+    simp only [ConcL] at h
+    obtain ⟨x', t', h1, ht, rfl⟩ := h
+    simp only [List.flatMap_cons]
+    exact (flatP1_concP h1).append (flatMap_flatP1_concP_of_concL ht)
+
+theorem flattenForProject_concP {xs xs' : List Val} (h : ConcP xs xs') :
+    ConcP (flattenForProject xs) (flattenForProject xs') := by
+  obtain ⟨ys', h1, h2⟩ := h
+  rw [flattenForProject_eq, flattenForProject_eq]
+  exact (flatMap_flatP1_concP_of_concL h1).of_perm_right (h2.flatMap_right flatP1)
+
+/-- what `flattenTag … = plain` says -/
+theorem flattenTag_plain {t : ATag} {xs : List Val} (ht : flattenTag t xs = .plain) :
+    enum2 t xs = false ∧ ∀ x ∈ xs, ∀ t0 ys, x = .arr t0 ys → enum2 t0 ys = false := by
+  unfold flattenTag at ht
+  split at ht
+  · cases ht
+  · rename_i hc
+    simp only [Bool.or_eq_true, not_or, Bool.not_eq_true] at hc
+    refine ⟨hc.1, ?_⟩
+    intro x hx t0 ys e
+    subst e
+    have := List.any_eq_false.mp hc.2 _ hx
+    simpa using this
+
+theorem flattenAndProjectArray_simE {f : Val → Res Val} {g : Nat → Val → Res Val} (hf : SimFnE f g) {v v' : Val}
+    (h : Conc v v') : SimE (flattenAndProjectArray f v) (flattenAndProjectArrayO g v') := by
+  cases v with
+  | arr t xs =>
+    obtain ⟨t', xs', rfl, hne, hp, _, _⟩ := conc_arr h
+    have hg := good_arr.mp (conc_good _ _ h)
+    simp only [flattenAndProjectArray, flattenAndProjectArrayO, mapPrune_eq_collect, mapPruneO_eq_collect,
+      flattenTag_of_good hne hg.2]
+    refine SimG.widen ?_
+    rcases flattenTag_cases t xs with ht | ht
+    · rw [ht]
+      refine SimG.bind (collect_simP (mapPruneH_sim hf) 0 (flattenForProject_concP hp)) fun rs rs' hr => SimG.pure ?_
+      obtain ⟨qs, hq, hd⟩ := hr
+      exact conc_enumArr (concP_iff.mpr ⟨qs, hq, concL_iff.mpr hd⟩)
+    · rw [ht]
+      have key := flattenTag_plain ht
+      obtain ⟨t'', xs'', e, _, hl, _⟩ := conc_arr_pos h key.1
+      cases e
+      have hl' : ConcL (flattenForProject xs) (flattenForProject xs') := by
+        rw [flattenForProject_eq, flattenForProject_eq]
+        exact flatMap_flatP1_concL hl key.2
+      exact SimG.bind (collect_simL (mapPruneH_sim hf) 0 hl') fun rs rs' hr =>
+        SimG.pure (conc_plainArr (concL_iff.mpr hr))
+  | obj kvs => obtain ⟨kvs', rfl, _⟩ := conc_obj h; exact SimG.ok conc_null
+  | _ => simp only [Conc] at h; subst h; exact SimG.ok conc_null
+
+/-! ### the producers: enumerating the members of an object -/
+
+theorem concF_values {kvs kvs' : List (Bytes × Val)} (h : ConcF kvs kvs') :
+    ConcL (kvs.map Prod.snd) (kvs'.map Prod.snd) :=
+  concL_iff.mpr ((concF_iff.mp h).map fun _ _ hab => hab.2)
+
+theorem concF_keys {kvs kvs' : List (Bytes × Val)} (h : ConcF kvs kvs') :
+    ConcL (kvs.map fun kv => Val.str kv.1) (kvs'.map fun kv => Val.str kv.1) :=
+  concL_iff.mpr ((concF_iff.mp h).map fun a b hab => by rw [hab.1]; simp [Conc])
+
+theorem concF_items {kvs kvs' : List (Bytes × Val)} (h : ConcF kvs kvs') :
+    ConcL (kvs.map fun kv => Val.arr .plain [Val.str kv.1, kv.2])
+      (kvs'.map fun kv => Val.arr .plain [Val.str kv.1, kv.2]) :=
+  concL_iff.mpr ((concF_iff.mp h).map fun a b hab => by
+    rw [hab.1]
+    exact conc_plainArr (concL_cons (by simp [Conc]) (concL_cons hab.2 concL_nil)))
+
+theorem conc_objectValues (π : Oracle) {v v' : Val} (h : Conc v v') : Conc (objectValues v) (objectValuesO π v') := by
+  cases v with
+  | obj kvs =>
+    obtain ⟨kvs', rfl, hf⟩ := conc_obj h
+    simp only [objectValues, objectValuesO]
+    exact conc_enumArr (((concF_values hf).concP.of_perm_right ((π.members_perm kvs').map _)).filter_nonnull)
+  | arr t xs => obtain ⟨t', xs', rfl, _⟩ := conc_arr h; exact conc_null
+  | _ => simp only [Conc] at h; subst h; exact conc_null
+
+theorem values_simE (π : Oracle) {v v' : Val} (h : Conc v v') : SimE (values v) (valuesO π v') := by
+  cases v with
+  | obj kvs =>
+    obtain ⟨kvs', rfl, hf⟩ := conc_obj h
+    exact SimG.ok (conc_enumArr ((concF_values hf).concP.of_perm_right ((π.members_perm kvs').map _)))
+  | _ => exact SimG.of_not_ok (by intro a e; cases e)
+
+theorem keys_simE (π : Oracle) {v v' : Val} (h : Conc v v') : SimE (keys v) (keysO π v') := by
+  cases v with
+  | obj kvs =>
+    obtain ⟨kvs', rfl, hf⟩ := conc_obj h
+    exact SimG.ok (conc_enumArr ((concF_keys hf).concP.of_perm_right ((π.members_perm kvs').map _)))
+  | _ => exact SimG.of_not_ok (by intro a e; cases e)
+
+theorem items_simE (π : Oracle) {v v' : Val} (h : Conc v v') : SimE (items v) (itemsO π v') := by
+  cases v with
+  | obj kvs =>
+    obtain ⟨kvs', rfl, hf⟩ := conc_obj h
+    exact SimG.ok (conc_enumArr ((concF_items hf).concP.of_perm_right ((π.members_perm kvs').map _)))
+  | _ => exact SimG.of_not_ok (by intro a e; cases e)
+
+theorem projectObject_simE (π : Oracle) {f : Val → Res Val} {g : Nat → Val → Res Val} (hf : SimFnE f g) {v v' : Val}
+    (h : Conc v v') : SimE (projectObject f v) (projectObjectO π g v') := by
+  cases v with
+  | obj kvs =>
+    obtain ⟨kvs', rfl, hkv⟩ := conc_obj h
+    simp only [projectObject, projectObjectO, mapPrune_eq_collect, mapPruneO_eq_collect]
+    refine SimG.widen ?_
+    have hp : ConcP (kvs.map Prod.snd) ((π.members kvs').map Prod.snd) :=
+      (concF_values hkv).concP.of_perm_right ((π.members_perm kvs').map _)
+    refine SimG.bind (collect_simP (mapPruneH_sim hf) 0 hp) fun rs rs' hr => SimG.pure ?_
+    obtain ⟨qs, hq, hd⟩ := hr
+    exact conc_enumArr (concP_iff.mpr ⟨qs, hq, concL_iff.mpr hd⟩)
+  | arr t xs => obtain ⟨t', xs', rfl, _⟩ := conc_arr h; exact SimG.ok conc_null
+  | _ => simp only [Conc] at h; subst h; exact SimG.ok conc_null
+
+/-! ### objects: `objInsert`, multi-select hashes, `let` -/
+
+theorem concF_objInsert {k : Bytes} {v v' : Val} (hv : Conc v v') : ∀ {acc acc' : List (Bytes × Val)},
+    ConcF acc acc' → ConcF (objInsert k v acc) (objInsert k v' acc')
+  | [], acc', h => by
+    simp only [ConcF] at h; subst h
+    exact concF_cons hv concF_nil
+  | (k0, x) :: acc, acc', h => by
+    have h0 := h
+    simp only [ConcF] at h
+    obtain ⟨x', t', hx, ht, rfl⟩ := h
+    simp only [objInsert]
+    split
+    · exact concF_cons hv ht
+    · split
+      · exact concF_cons hv h0
+      · exact concF_cons hx (concF_objInsert hv ht)
+
+theorem concF_foldInsert : ∀ {kvs kvs' acc acc' : List (Bytes × Val)}, ConcF kvs kvs' → ConcF acc acc' →
+    ConcF (kvs.foldl (fun a kv => objInsert kv.1 kv.2 a) acc) (kvs'.foldl (fun a kv => objInsert kv.1 kv.2 a) acc')
+  | [], kvs', _, _, h, ha => by simp only [ConcF] at h; subst h; exact ha
+  | (k, x) :: kvs, kvs', _, _, h, ha => by
+    simp only [ConcF] at h
+    obtain ⟨x', t', hx, ht, rfl⟩ := h
+    simp only [List.foldl_cons]
+    exact concF_foldInsert ht (concF_objInsert hx ha)
+
+theorem concF_insertAll : ∀ {kvs kvs' : List (Bytes × Val)}, ConcF kvs kvs' → ConcF (insertAll kvs) (insertAll kvs')
+  | [], kvs', h => by simp only [ConcF] at h; subst h; exact concF_nil
+  | (k, x) :: kvs, kvs', h => by
+    simp only [ConcF] at h
+    obtain ⟨x', t', hx, ht, rfl⟩ := h
+    exact concF_objInsert hx (concF_insertAll ht)
+
+theorem concF_append {a a' b b' : List (Bytes × Val)} (h1 : ConcF a a') (h2 : ConcF b b') : ConcF (a ++ b) (a' ++ b') :=
+  concF_iff.mpr ((concF_iff.mp h1).append (concF_iff.mp h2))
+
+/-- a member's outcome in the model and in the run -/
+abbrev MemberSimE (o o' : Bytes × Res Val) : Prop := o.1 = o'.1 ∧ SimE o.2 o'.2
+
+/-- the members of a hash / `let`: if the model's combined outcome is an object, every order of evaluation of the
+    run builds a concretisation of it (keys pairwise distinct) -/
+theorem members_simE {os os' os'' : List (Bytes × Res Val)} (hrel : All₂ MemberSimE os os')
+    (hn : (os.map Prod.fst).Nodup) (hp : os''.Perm os') :
+    SimG ConcF (combineAll os) (firstFailure os'' []) := by
+  intro bs hc
+  obtain ⟨kvs, rfl, rfl⟩ := (combineAll_ok_iff os bs).mp hc
+  -- the run's outcomes are successes concretising the model's
+  have : ∃ kvs', os' = okOutcomes kvs' ∧ ConcF kvs kvs' := by
+    clear hc hn hp
+    generalize he : okOutcomes kvs = os at hrel
+    induction hrel generalizing kvs with
+    | nil =>
+      cases kvs with
+      | nil => exact ⟨[], rfl, concF_nil⟩
+      | cons a l => simp [okOutcomes] at he
+    | @cons a b l l' hab _ ih =>
+      cases kvs with
+      | nil => simp [okOutcomes] at he
+      | cons kv kvs =>
+        simp only [okOutcomes, List.map_cons, List.cons.injEq] at he
+        obtain ⟨rfl, he⟩ := he
+        obtain ⟨kvs', rfl, hf⟩ := ih kvs he
+        obtain ⟨k', r'⟩ := b
+        obtain ⟨hk, hs⟩ := hab
+        simp only at hk hs
+        obtain ⟨v', rfl, hv⟩ := hs kv.2 rfl
+        subst hk
+        exact ⟨(kv.1, v') :: kvs', rfl, concF_cons hv hf⟩
+  obtain ⟨kvs', rfl, hf⟩ := this
+  obtain ⟨kvs'', rfl, hp'⟩ := okOutcomes_of_perm hp
+  have hkeys : kvs'.map Prod.fst = kvs.map Prod.fst := by
+    have := (concF_iff.mp hf).map (S := fun a b => a = b) (f := Prod.fst) (g := Prod.fst) (fun a b hab => hab.1)
+    exact (All₂.eq_of_eq this).symm
+  have hn' : (kvs'.map Prod.fst).Nodup := by
+    rw [hkeys]
+    have : (okOutcomes kvs).map Prod.fst = kvs.map Prod.fst := by
+      unfold okOutcomes; rw [List.map_map]; rfl
+    rwa [this] at hn
+  refine ⟨_, firstFailure_all_ok kvs'' [], ?_⟩
+  rw [foldInsert_perm hn' hp']
+  exact concF_insertAll hf
+
+/-! ### `==`: independent of the concretisation when no map-ordered array (≥ 2 elements) is involved -/
+
+theorem hasEnum2_arr {t : ATag} {xs : List Val} (h : (Val.arr t xs).hasEnum2 = false) :
+    enum2 t xs = false ∧ Val.hasEnum2L xs = false := by
+  simp only [Val.hasEnum2, Bool.or_eq_false_iff] at h
+  exact ⟨by simpa [enum2] using h.1, h.2⟩
+
+theorem hasEnum2F_mem : ∀ {kvs : List (Bytes × Val)}, Val.hasEnum2F kvs = false → ∀ kv ∈ kvs, kv.2.hasEnum2 = false
+  | [], _, _, h => by cases h
+  | (k, v) :: kvs, h, kv, hm => by
+    simp only [Val.hasEnum2F, Bool.or_eq_false_iff] at h
+    rcases List.mem_cons.mp hm with rfl | hm
+    · exact h.1
+    · exact hasEnum2F_mem h.2 kv hm
+
+/-- comparing a value that is not a container with a concretised value -/
+theorem equal_flat_left {x y y' : Val} (hy : Conc y y') (h1 : ∀ t xs, x ≠ .arr t xs) (h2 : ∀ kvs, x ≠ .obj kvs) :
+    equal x y' = equal x y := by
+  cases y with
+  | arr u ys =>
+    obtain ⟨u', ys', rfl, _⟩ := conc_arr hy
+    cases x with
+    | arr t xs => exact absurd rfl (h1 t xs)
+    | obj kvs => exact absurd rfl (h2 kvs)
+    | num n => simp only [equal, toDecimal]
+    | _ => rfl
+  | obj kvs =>
+    obtain ⟨kvs', rfl, _⟩ := conc_obj hy
+    cases x with
+    | arr t xs => exact absurd rfl (h1 t xs)
+    | obj kvs => exact absurd rfl (h2 kvs)
+    | num n => simp only [equal, toDecimal]
+    | _ => rfl
+  | _ => simp only [Conc] at hy; subst hy; rfl
+
+mutual
+theorem conc_equal : ∀ (x x' y y' : Val), Conc x x' → Conc y y' → x.hasEnum2 = false → y.hasEnum2 = false →
+    equal x' y' = equal x y
+  | .null, x', y, y', hx, hy, _, _ => by
+    simp only [Conc] at hx; subst hx
+    exact equal_flat_left hy (by intros; simp) (by intros; simp)
+  | .bool b, x', y, y', hx, hy, _, _ => by
+    simp only [Conc] at hx; subst hx
+    exact equal_flat_left hy (by intros; simp) (by intros; simp)
+  | .str s, x', y, y', hx, hy, _, _ => by
+    simp only [Conc] at hx; subst hx
+    exact equal_flat_left hy (by intros; simp) (by intros; simp)
+  | .num n, x', y, y', hx, hy, _, _ => by
+    simp only [Conc] at hx; subst hx
+    exact equal_flat_left hy (by intros; simp) (by intros; simp)
+  | .foreign k, x', y, y', hx, hy, _, _ => by
+    simp only [Conc] at hx; subst hx
+    exact equal_flat_left hy (by intros; simp) (by intros; simp)
+  | .arr t xs, x', y, y', hx, hy, ex, ey => by
+    have ⟨e1, e2⟩ := hasEnum2_arr ex
+    obtain ⟨t', xs', rfl, _, hl, _⟩ := conc_arr_pos hx e1
+    cases y with
+    | arr u ys =>
+      have ⟨f1, f2⟩ := hasEnum2_arr ey
+      obtain ⟨u', ys', rfl, _, hl', _⟩ := conc_arr_pos hy f1
+      simp only [equal]
+      exact conc_equalL xs xs' ys ys' hl hl' e2 f2
+    | obj kvs => obtain ⟨kvs', rfl, _⟩ := conc_obj hy; rfl
+    | _ => simp only [Conc] at hy; subst hy; rfl
+  | .obj xs, x', y, y', hx, hy, ex, ey => by
+    obtain ⟨xs', rfl, hf⟩ := conc_obj hx
+    cases y with
+    | obj ys =>
+      obtain ⟨ys', rfl, hf'⟩ := conc_obj hy
+      simp only [equal, ← concF_length hf, ← concF_length hf']
+      rw [conc_equalF xs xs' ys ys' hf hf' (by simpa [Val.hasEnum2] using ex) (by simpa [Val.hasEnum2] using ey)]
+    | arr u ys => obtain ⟨u', ys', rfl, _⟩ := conc_arr hy; rfl
+    | _ => simp only [Conc] at hy; subst hy; rfl
+theorem conc_equalL : ∀ (xs xs' ys ys' : List Val), ConcL xs xs' → ConcL ys ys' → Val.hasEnum2L xs = false →
+    Val.hasEnum2L ys = false → equalL xs' ys' = equalL xs ys
+  | [], xs', ys, ys', hx, hy, _, _ => by
+    simp only [ConcL] at hx; subst hx
+    cases ys with
+    | nil => simp only [ConcL] at hy; subst hy; rfl
+    | cons y ys => simp only [ConcL] at hy; obtain ⟨y', t', _, _, rfl⟩ := hy; rfl
+  | x :: xs, xs', ys, ys', hx, hy, ex, ey => by
+    simp only [ConcL] at hx
+    obtain ⟨x', tx, hx1, hx2, rfl⟩ := hx
+    cases ys with
+    | nil => simp only [ConcL] at hy; subst hy; rfl
+    | cons y ys =>
+      simp only [ConcL] at hy
+      obtain ⟨y', ty, hy1, hy2, rfl⟩ := hy
+      simp only [Val.hasEnum2L, Bool.or_eq_false_iff] at ex ey
+      simp only [equalL]
+      rw [conc_equal x x' y y' hx1 hy1 ex.1 ey.1, conc_equalL xs tx ys ty hx2 hy2 ex.2 ey.2]
+theorem conc_equalF : ∀ (xs xs' ys ys' : List (Bytes × Val)), ConcF xs xs' → ConcF ys ys' →
+    Val.hasEnum2F xs = false → Val.hasEnum2F ys = false → equalF xs' ys' = equalF xs ys
+  | [], xs', ys, ys', hx, _, _, _ => by
+    simp only [ConcF] at hx; subst hx; rfl
+  | (k, x) :: xs, xs', ys, ys', hx, hy, ex, ey => by
+    simp only [ConcF] at hx
+    obtain ⟨x', tx, hx1, hx2, rfl⟩ := hx
+    simp only [Val.hasEnum2F, Bool.or_eq_false_iff] at ex
+    simp only [equalF]
+    rw [conc_equalF xs tx ys ys' hx2 hy ex.2 ey]
+    rcases conc_objLookup k hy with ⟨h1, h2⟩ | ⟨y, y', h1, h2, hyy⟩
+    · rw [h1, h2]
+    · rw [h1, h2]
+      simp only
+      rw [conc_equal x x' y y' hx1 hyy ex.1 (hasEnum2F_mem ey (k, y) (objLookup_mem h1))]
+end
+
+mutual
+theorem hasEnum2_of_good : ∀ v : Val, v.Good true = true → v.hasEnum2 = false := hasEnum2_good
+end
+
+theorem equalR_simE {x x' y y' : Val} (hx : Conc x x') (hy : Conc y y') :
+    SimG (fun a b : Bool => a = b) (equalR x y) (equalR x' y') := by
+  intro b hb
+  simp only [equalR] at hb ⊢
+  split at hb
+  · cases hb
+  · rename_i hc
+    simp only [Bool.or_eq_true, not_or, Bool.not_eq_true] at hc
+    cases hb
+    rw [hasEnum2_good _ (conc_good _ _ hx), hasEnum2_good _ (conc_good _ _ hy)]
+    simp only [Bool.or_self, Bool.false_eq_true, if_false]
+    exact ⟨_, rfl, (conc_equal x x' y y' hx hy hc.1 hc.2).symm⟩
+
+theorem conc_bool (b : Bool) : Conc (.bool b) (.bool b) := by simp [Conc]
+theorem conc_num (n : Num) : Conc (.num n) (.num n) := by simp [Conc]
+theorem conc_str (s : Bytes) : Conc (.str s) (.str s) := by simp [Conc]
+
+theorem checkD_conc (r : Dec) : ∀ v, checkD r = .ok v → Conc v v := by
+  intro v h
+  simp only [checkD] at h
+  split at h
+  · cases h
+  · split at h
+    · cases h
+    · cases h; exact conc_num _
+
+theorem checkF_conc (r : F64) : ∀ v, checkF r = .ok v → Conc v v := by
+  intro v h
+  simp only [checkF] at h
+  split at h
+  · cases h
+  · split at h
+    · cases h
+    · cases h; exact conc_num _
+
+theorem arith_simE (fop : F64 → F64 → F64) (dop : Dec → Dec → Dec) {x x' y y' : Val} (hx : Conc x x')
+    (hy : Conc y y') : SimE (arith fop dop x y) (arith fop dop x' y') := by
+  refine SimE.of_eq (by simp only [arith, toFloatPair, conc_toFloat hx, conc_toFloat hy, conc_toDecimal hx,
+    conc_toDecimal hy]) ?_
+  intro v h
+  simp only [arith] at h
+  split at h
+  · exact checkF_conc _ v h
+  · split at h
+    · cases h
+    · split at h
+      · cases h
+      · exact checkD_conc _ v h
+
+theorem cmpOp_conc (f : Dec → Dec → Bool) {x x' y y' : Val} (hx : Conc x x') (hy : Conc y y') :
+    Conc (cmpOp f x y) (cmpOp f x' y') := by
+  simp only [cmpOp, conc_toDecimal hx, conc_toDecimal hy]
+  cases toDecimal x with
+  | none => exact conc_null
+  | some a =>
+    cases toDecimal y with
+    | none => exact conc_null
+    | some b => exact conc_bool _
+
+theorem applyBinOp_simE (op : BinOp) {x x' y y' : Val} (hx : Conc x x') (hy : Conc y y') :
+    SimE (applyBinOp op x y) (applyBinOp op x' y') := by
+  cases op
+  case eq => exact SimG.bind (equalR_simE hx hy) fun a b e => by subst e; exact SimG.pure (conc_bool _)
+  case ne => exact SimG.bind (equalR_simE hx hy) fun a b e => by subst e; exact SimG.pure (conc_bool _)
+  case lt => exact SimG.ok (cmpOp_conc _ hx hy)
+  case le => exact SimG.ok (cmpOp_conc _ hx hy)
+  case gt => exact SimG.ok (cmpOp_conc _ hx hy)
+  case ge => exact SimG.ok (cmpOp_conc _ hx hy)
+  all_goals exact arith_simE _ _ hx hy
+
+theorem negateVal_conc {v v' : Val} (h : Conc v v') : Conc (negateVal v) (negateVal v') := by
+  simp only [negateVal, conc_toFloat h, conc_toDecimal h]
+  split
+  · exact conc_num _
+  · split
+    · exact conc_null
+    · split <;> exact conc_num _
 
 end Jmes
